@@ -93,7 +93,9 @@ func c10Walk(in *LNode, pl, en *JNode, key []byte, path []string, dict map[strin
 }
 
 var c10Dictionary = []string{"x", "x ", " x", "X", "xx", "x\u0000", "", " ", "é", "é", "abc", "abcd", "bcd", "ab", "a@b.co", "A@b.co", "a@b.co ", "000000000000000000000001", "000000000000000000000002",
-	"2024-01-01T00:00:00Z", "2024-01-01T00:00:00.000Z", "lorem ipsum dolor sit amet", "lorem ipsum dolor sit amet.", "日本", "日本語", "\"", "\\\"", "null", "true", "0", "00"}
+	"2024-01-01T00:00:00Z", "2024-01-01T00:00:00.000Z", "lorem ipsum dolor sit amet", "lorem ipsum dolor sit amet.", "日本", "日本語", "\"", "\\\"", "null", "true", "0", "00",
+	"Zo\u00eb", "Zoe\u0308", "\u212b", "\u00c5", "A\u030a", "\u2126", "\u03a9", "bob@example.com", "Bob <bob@example.com>", "<bob@example.com>", "mailto:bob@example.com", " bob@example.com", "bob@example.com\n", "bob@example.com ",
+	"10.1.2.3:27017", "10.1.2.3", "255.255.255.255:65535", "jo\u212ae@example.com", "joke@example.com", "joKe@example.com"}
 
 func c10DictLines() ([]string, [][]string) {
 	var lines []string
